@@ -413,8 +413,8 @@ Definition told_run (h : list event) : ref := fold_left told_step h ref_init.
 
 Definition this_server_text : str := Eval vm_compute in bs "this server".
 
-(* a user is presented under one ident/host: what a message shows of a known user agrees
-   with what we were told before *)
+(* userhost-in-names repeats the ident/host of users we may already know: a correct server
+   shows a known user under the ident/host it showed before (changes come as CHGHOST) *)
 Definition consistent_user (r : ref) (src : source) : bool :=
   match alookup (key (s_name src)) (r_users r) with
   | None => true
